@@ -9,6 +9,7 @@ import (
 	oracletypes "github.com/tellor-io/layer/x/oracle/types"
 
 	"cosmossdk.io/collections"
+	"cosmossdk.io/math"
 
 	sdk "github.com/cosmos/cosmos-sdk/types"
 )
@@ -242,8 +243,76 @@ func c06Once(l *LabCtx) {
 	l.St.Count("c06.exhaustive-grid-complete")
 }
 
+// c06EndBlock: the path the chain really takes - a round with n stored reports (n up to 230: "reporter counts" beyond any
+// page size) whose window has closed is aggregated by the oracle module's SetAggregatedReport, and the stored aggregate
+// is judged by the definition against exactly those reports.
+func c06EndBlock(l *LabCtx) {
+	r := l.R
+	k := l.C.App.OracleKeeper
+	n := []int{2, 3, 7, 99, 100, 101, 130, 230}[r.Pick(8)]
+	method := []string{"median", "mode"}[r.Pick(2)]
+	qd := []byte(fmt.Sprintf("lab-query-%d", r.Intn(1<<30)))
+	qid := QueryID(qd)
+	const metaId = 987_654
+	h := uint64(l.Ctx.BlockHeight())
+	vals := []string{"0a", "14", "1e", "28"}
+	var reports []oracletypes.MicroReport
+	for i := 0; i < n; i++ {
+		addr := make([]byte, 20)
+		for j := range addr {
+			addr[j] = byte(r.Intn(256))
+		}
+		// most of the weight sits with the reporters that sort last
+		p := uint64(1 + r.Pick(3))
+		if addr[0] >= 200 {
+			p = uint64(50 + r.Pick(50))
+		}
+		mr := oracletypes.MicroReport{Reporter: sdk.AccAddress(addr).String(), Power: p, QueryType: "LabType", QueryId: qid, Value: vals[r.Pick(len(vals))], Timestamp: l.Ctx.BlockTime(), BlockNumber: h - 1,
+			AggregateMethod: map[string]string{"median": "weighted-median", "mode": "weighted-mode"}[method]}
+		if addr[0] >= 200 {
+			mr.Value = vals[3]
+		}
+		if err := k.Reports.Set(l.Ctx, collections.Join3(qid, addr, uint64(metaId)), mr); err != nil {
+			return
+		}
+		reports = append(reports, mr)
+	}
+	qm := oracletypes.QueryMeta{Id: metaId, Amount: math.ZeroInt(), Expiration: h, RegistrySpecBlockWindow: 2, HasRevealedReports: true, QueryData: qd, QueryType: "LabType"}
+	if err := k.Query.Set(l.Ctx, collections.Join(qid, uint64(metaId)), qm); err != nil {
+		return
+	}
+	l.St.Count("c06.endblock.calls")
+	if err := k.SetAggregatedReport(l.Ctx); err != nil {
+		l.Violate("C06", "c06", "endblock:"+method+":aggregation-of-a-closed-round-failed", map[string]interface{}{"err": err.Error(), "reports": n})
+		return
+	}
+	var agg *oracletypes.Aggregate
+	_ = k.Aggregates.Walk(l.Ctx, collections.NewPrefixedPairRange[[]byte, uint64](qid), func(_ collections.Pair[[]byte, uint64], a oracletypes.Aggregate) (bool, error) {
+		cp := a
+		agg = &cp
+		return true, nil
+	})
+	l.St.Bucket("c06|endblock|%s|reports=%d|stored=%v", method, n, agg != nil)
+	if agg == nil {
+		l.Violate("C06", "c06", "endblock:"+method+":no-aggregate-stored-for-a-closed-round-with-reports", map[string]interface{}{"reports": n})
+		return
+	}
+	fail := func(sig string, extra map[string]interface{}) {
+		d := map[string]interface{}{"method": method, "reports": n, "first_reports": describeReports(reports[:minInt(len(reports), 6)])}
+		for kk, v := range extra {
+			d[kk] = v
+		}
+		l.Violate("C06", "c06", "endblock:"+method+":"+sig, d)
+	}
+	aggregateDefects(method, reports, agg, nil, fail)
+}
+
 func c06One(l *LabCtx) {
 	r := l.R
+	if r.Chance(0.02) {
+		c06EndBlock(l)
+		return
+	}
 	n := 1 + r.Pick(9)
 	if r.Chance(0.05) {
 		n = 50 + r.Pick(150)
